@@ -1,8 +1,10 @@
 import PedalModel.DriverLoop
+import PedalModel.SandboxExec
 open Pedal
 
-/- Line-protocol driver for C05: replace the stub dispatch with the model's request handlers. -/
+/- Line-protocol driver for C05 (same dispatch as C04): histories of sandbox executions through the model. -/
 def dispatch : List String → String
+  | "hist" :: ts => SandboxExec.Wire.handleHist ts
   | _ => "bad-request"
 
 def main : IO Unit := driverMain dispatch
